@@ -96,8 +96,9 @@ P = {
        "explicit fairness hypotheses), held_lock_would_deadlock (non-vacuity). The executable scheduler is proved to take only "
        "model steps and is run in lock step with real limiters synchronised to observed ticks.",
   note="Go scheduler/select fairness only as hypotheses; timing-ambiguous bursts are discarded as inconclusive, never failed; "
-       "Close-vs-tick hangs are searched by a child-process stress oracle with deadlines; SetCap is compared but not part of the "
-       "step relation; requests above an ancestor's cap wait until Close (reading, Appendix B); LastUsed is specified for "
+       "Close-vs-tick hangs are searched by a child-process stress oracle with deadlines; SetCap is a step of the relation (grant_within_caps_in_force, "
+       "queued_above_lowered_cap_fails_at_tick, setCap_returns) and negative capacities are clamped to 0 as the code does; the "
+       "two per-period cap bounds carry the hypothesis that no SetCap happened in the period; requests above an ancestor's cap wait until Close (reading, Appendix B); LastUsed is specified for "
        "limiters still linked into the tree.",
   ref="DESIGN.md section 5 C16"),
  "C04": dict(
